@@ -49,7 +49,7 @@ def run_hist(beh):
     r = c11.replay_history(beh, persist=True)
     if r.get("fails") and r["key"].get("act") != "reopen":
         twin = dict(beh)
-        twin["trail"] = [s for s in beh["trail"] if s["act"] != "reopen"]
+        twin["trail"] = [s for s in beh["trail"] if s["act"] not in ("reopen", "sync")]
         r2 = c11.replay_history(twin, persist=True)
         if r2.get("fails") and r2["key"] == r["key"]:
             return {"fails": [], "steps": r.get("steps", 0), "beh": beh, "same_without_reopen": r["key"]}
@@ -252,6 +252,8 @@ def main(tier):
         for b in got:
             if not any(s["act"] == "reopen" for s in b["trail"]):
                 continue
+            # a trailing sync without a later reopen checks nothing: drop it
+
             d = common.digest(b)
             if d not in seen:
                 seen.add(d)
